@@ -62,6 +62,7 @@ def _check_main(run, P):
     from .c01 import _alias as _al
     _al(run, "C04.sinks", "C05.sorted", lambda: _c04._sinks(run, P))
     run.do(_topo_wrap, run, P)
+    run.do(_no_recursion, run, P)
     run.do(_loops, run, P)
     run.do(_cond, run, P)
     run.do(_walker, run, P)
@@ -76,7 +77,6 @@ def _check_main(run, P):
     m = P.module(MOD)
     run.do(c06._splice_and_pop, run, P, m)
     run.do(c06._keep, run, P)
-    run.do(c06._ifthenelse, run, P)
     run.do(c06._merge, run, P)
     run.do(c06._handlers, run, P)
     run.do(c06._lost, run, P)
@@ -324,12 +324,36 @@ def _same_block(root, a, b):
     return False
 
 
+def _no_recursion(run, P):
+    """The ordering of a phase keeps its own stack: the interpreter depth of the
+    lowering does not grow with the length of dependency chains."""
+    f = P.func(f"{MOD}.create_ast_from_phase")
+    rec = []
+    for g_ in [f] + list(f.nested.values()):
+        for x in ast.walk(g_.node):
+            if isinstance(x, ast.Call) and isinstance(x.func, ast.Name) and x.func.id == g_.name \
+                    and g_ is not f:
+                rec.append((g_, x))
+            if isinstance(x, ast.Call) and dotted(x.func) == "create_ast_from_phase":
+                rec.append((g_, x))
+    run.ob("C05.topo", rec[0][0] if rec else f, rec[0][1] if rec else f.node, not rec,
+           construct="create_ast_from_phase orders the statements without recursing per dependency"
+                     + (f" (recursive call {norm(rec[0][1], 40)})" if rec else ""),
+           why="a phase whose statements form a chain of a thousand dependencies (one variable "
+               "updated a thousand times) is well-formed; a traversal that recurses once per "
+               "link ends in RecursionError instead of a program")
+
+
 def _loops(run, P):
     from .c06 import _ctor_args
-    f = P.func(f"{MOD}.loop_to_ast_node")
-    ctor = [x for x in ast.walk(f.node) if isinstance(x, ast.Call) and dotted(x.func) == "ForLoop"]
-    if len(ctor) != 1:
-        raise AnalysisError("loop_to_ast_node: one ForLoop(...) expected")
+    cands = [(g_, x) for g_ in P.module(MOD).functions.values()
+             if g_.cls is None and g_.parent is None and "to_ast" in g_.name
+             for x in ast.walk(g_.node) if isinstance(x, ast.Call) and dotted(x.func) == "ForLoop"]
+    if len(cands) != 1:
+        raise AnalysisError("lowering of a looped statement: one ForLoop(...) expected in the "
+                            "*_to_ast functions")
+    f, c0 = cands[0]
+    ctor = [c0]
     slots = _ctor_args(P, ctor[0], "ForLoop")
     # unpacking
     unpack = None
@@ -339,11 +363,12 @@ def _loops(run, P):
                 and len(n.targets[0].elts) == 3 and "loops" in ast.unparse(n.value):
             unpack = (n.targets[0], n.value, n)
         if isinstance(n, ast.For) and isinstance(n.target, ast.Tuple) \
-                and len(n.target.elts) == 3 and "loops" in ast.unparse(n.iter):
+                and len(n.target.elts) == 3 and "loops" in ast.unparse(n.iter) \
+                and any(x is c0 for x in ast.walk(n)):
             iterative = n
             unpack = (n.target, n.iter, n)
     if unpack is None:
-        raise AnalysisError("loop_to_ast_node: loop tuple unpacking not found")
+        raise AnalysisError(f"{f.name}: loop tuple unpacking not found")
     names = [e.id if isinstance(e, ast.Name) else None for e in unpack[0].elts]
     for slot, pos in (("loop_var_name", 0), ("lbound", 1), ("ubound", 2)):
         a = slots.get(slot)
@@ -369,7 +394,17 @@ def _loops(run, P):
                    "an earlier loop variable")
     else:
         it = iterative.iter
-        ok = isinstance(it, ast.Call) and dotted(it.func) == "reversed"
+        ok = (isinstance(it, ast.Call) and dotted(it.func) == "reversed") or (
+            isinstance(it, ast.Subscript) and isinstance(it.slice, ast.Slice)
+            and norm(it.slice.step or ast.Constant(value=1)) == "-1" and it.slice.lower is None
+            and it.slice.upper is None)
+        # the node being wrapped is the body of the new loop
+        body = slots.get("body")
+        tgt = None
+        for s_ in ast.walk(iterative):
+            if isinstance(s_, ast.Assign) and s_.value is c0 and isinstance(s_.targets[0], ast.Name):
+                tgt = s_.targets[0].id
+        ok = ok and isinstance(body, ast.Name) and body.id == tgt
         run.ob("C05.loops", f, iterative, ok,
                construct=f"iterative wrapping: for ... in {norm(it)}",
                why="wrapping inside-out must walk the loops in reverse, else the first "
@@ -541,6 +576,6 @@ def _walker(run, P):
 
 
 def check(run, P):
-    _check_main(run, P)
+    run.do(_check_main, run, P)
     from . import generic
     generic.lints(run, P, "C05")
